@@ -214,7 +214,8 @@ pub fn drive_corpus(corpus: &str, seed: u64, thorough: bool, w: &mut NdWriter) -
   let per_file_cut = if thorough { 60 } else { 10 };
   let per_file_near = if thorough { 40 } else { 6 };
   let per_file_broken = if thorough { 40 } else { 8 };
-  let (mut n_cut, mut n_near, mut n_self, mut n_broken, mut n_zero) = (0, 0, 0, 0, 0);
+  let per_file_ctx = if thorough { 60 } else { 12 };
+  let (mut n_cut, mut n_near, mut n_self, mut n_broken, mut n_zero, mut n_ctx) = (0, 0, 0, 0, 0, 0);
   let mut langs = std::collections::BTreeSet::new();
   for (l, path, text) in util::corpus(corpus) {
     let g = l.ast_grep(&text);
@@ -271,6 +272,43 @@ pub fn drive_corpus(corpus: &str, seed: u64, thorough: bool, w: &mut NdWriter) -
         }
       }
     }
+    // (f) contextual patterns: the site's text (with holes) is left inside the text of an enclosing node and the
+    // pattern is Pattern::contextual(context, selector = kind of the site).  The case is kept when, in the recorder's
+    // own parse of the context, the first node of that kind in document order is the site itself.
+    for i in 0..per_file_ctx {
+      let site = rng.pick(&sites).clone();
+      let mut anc = match site.parent() { Some(a) => a, None => continue };
+      if i % 2 == 1 {
+        if let Some(a2) = anc.parent() {
+          anc = a2;
+        }
+      }
+      let at = anc.get_ts_node();
+      if mrec::has_error_or_missing(&at) || proj::count_nodes(&at) > 160 || anc.text().contains('$') || anc.range() == site.range() {
+        continue;
+      }
+      let p = proj::project(&site, false);
+      let (pat, hs, tl) = if i % 4 == 0 {
+        (site.text().to_string(), vec![], json!({"name": "", "ids": []}))
+      } else {
+        let Some((pat, holes, tail)) = cut(&site, &mut rng, i % 4 == 3) else { continue };
+        let hs: Vec<Value> = holes.iter().map(|(n, d)| json!({"name": n, "id": p.id_of(d)})).collect();
+        let tl = match &tail {
+          None => json!({"name": "", "ids": []}),
+          Some((n, run)) => json!({"name": n, "ids": run.iter().map(|d| p.id_of(d)).collect::<Vec<_>>()}),
+        };
+        (pat, hs, tl)
+      };
+      let atext = anc.text().to_string();
+      let (s0, e0) = (site.range().start - anc.range().start, site.range().end - anc.range().start);
+      let context = format!("{}{}{}", &atext[..s0], pat, &atext[e0..]);
+      let kind = site.kind().to_string();
+      if let Some(r) = mrec::match_record_sel(&format!("{path}#ctx{i}"), l, &context, Some((&kind, s0)), &site,
+        json!({"mode": "cut", "holes": hs, "tail": tl, "selector": kind, "ctx": true})) {
+        w.put(&r);
+        n_ctx += 1;
+      }
+    }
     // (c) near misses: a pattern cut at one site against other nodes of the same kind
     for i in 0..per_file_near {
       let site = rng.pick(&sites).clone();
@@ -319,7 +357,7 @@ pub fn drive_corpus(corpus: &str, seed: u64, thorough: bool, w: &mut NdWriter) -
       }
     }
   }
-  json!({"corpus_cut": n_cut, "corpus_self": n_self, "corpus_near": n_near, "corpus_broken": n_broken, "corpus_zero_width": n_zero, "languages": langs})
+  json!({"corpus_cut": n_cut, "corpus_self": n_self, "corpus_near": n_near, "corpus_broken": n_broken, "corpus_zero_width": n_zero, "corpus_contextual": n_ctx, "languages": langs})
 }
 
 /// C04, first clause, for single patterns: a variable that occurs twice; candidates whose two sub-terms are identical,
